@@ -59,6 +59,11 @@ def base_candidates():
         c.append(('str', v))
     for v in (b'', b'\x00', b'1234567', b'12345678', b'123456789', bytes(range(32))):
         c.append(('bytes', v))
+    names = [a.value for a in enums.AttributeType]
+    for i in range(0, len(names), 3):
+        c.append(('list_str', names[i:i + 3]))
+    for n in names:
+        c.append(('str', n))
     c += [('list_str', []), ('list_str', ['a']), ('list_str', ['Name', 'State']),
           ('list_bytes', [b'ab']), ('list_int', [1, 2]), ('list_int', [])]
     for name, e in inspect.getmembers(enums, inspect.isclass):
